@@ -359,6 +359,9 @@ type c07SeqCase struct {
 	Host        string `json:"host"`
 	CloseFirst  bool   `json:"close_before_second_dial,omitempty"`
 	Seq         bool   `json:"sequence_case"`
+	// Change: what is tightened between the two dials: "" = SetTLSPolicy(TLSMandatory), "setssl" = SetSSL(true)
+	// (implicit TLS: nothing at all may then be sent in clear)
+	Change string `json:"change,omitempty"`
 }
 
 func runC07Seq(r *ev.Run, c c07SeqCase) {
@@ -415,7 +418,11 @@ func runC07Seq(r *ev.Run, c c07SeqCase) {
 	if c.CloseFirst {
 		_ = cl.Close()
 	}
-	cl.SetTLSPolicy(mail.TLSMandatory)
+	if c.Change == "setssl" {
+		cl.SetSSL(true)
+	} else {
+		cl.SetTLSPolicy(mail.TLSMandatory)
+	}
 	changed := faultio.Tick()
 	msg, _ := simpleMsg("c07s", "sender@verif.example", []string{"rcpt@verif.example"}, "quoted-printable", "confidential body\r\n")
 	dialErr := cl.DialWithContext(ctx)
@@ -435,6 +442,20 @@ func runC07Seq(r *ev.Run, c c07SeqCase) {
 		s.Stop()
 	}
 	r.Count("policy_change_sequences", 1)
+	if c.Change == "setssl" {
+		for si, s := range ss {
+			if si == 0 {
+				continue // the connection of the first dial
+			}
+			raw := s.Clear()
+			r.Count("connections_after_setssl", 1)
+			if rest, _ := stripTLSRecords(raw); len(rest) > 0 {
+				viol("cleartext-after-setssl", fmt.Sprintf("SetSSL(true) was called on the Client, then connection %d carried %d bytes that are not TLS records (second dial error: %v)", si, len(rest), dialErr), ev.Q(rest, 300))
+			}
+		}
+		r.Eval(fmt.Sprintf("seq|%+v", c), true)
+		return
+	}
 	for si, s := range ss {
 		cmds, _, _ := s.Snapshot()
 		for _, cr := range cmds {
@@ -653,6 +674,7 @@ func runC07(r *ev.Run, rep *ev.ReplayDoc) ev.Summary {
 			for _, h := range []string{"localhost", "127.0.0.2"} {
 				for _, cf := range []bool{false, true} {
 					seqs = append(seqs, c07SeqCase{FirstPolicy: fp, StartTLS: st, Host: h, CloseFirst: cf, Seq: true})
+					seqs = append(seqs, c07SeqCase{FirstPolicy: fp, StartTLS: st, Host: h, CloseFirst: cf, Seq: true, Change: "setssl"})
 				}
 			}
 		}
